@@ -277,6 +277,45 @@ pub fn run(tier: &str) -> i32 {
     });
     all.merge(Acc::merge_all(accs));
 
+    // ---- time constructors: one buffer holding a date-time, then - same address, same length - something else
+    {
+        let mut acc = Acc::default();
+        for claim in 0..3 {
+            for (valid, other) in [
+                ("2999-01-01T00:00:00Z", "certainly not a date"),
+                ("2999-01-01T00:00:00Z", "2999-13-41T99:99:99Z"),
+                ("2999-01-01T00:00:00+00:00", "xxxxxxxxxxxxxxxxxxxxxxxxx"),
+                ("1999-12-31T23:59:59.5Z", "                      "),
+            ] {
+                assert_eq!(valid.len(), other.len());
+                let mut bytes = valid.as_bytes().to_vec();
+                let first = ctor(claim, false, std::str::from_utf8(&bytes).unwrap());
+                bytes.copy_from_slice(other.as_bytes());
+                let second = ctor(claim, false, std::str::from_utf8(&bytes).unwrap());
+                // and back: the buffer holds a date-time again
+                bytes.copy_from_slice(valid.as_bytes());
+                let third = ctor(claim, false, std::str::from_utf8(&bytes).unwrap());
+                acc.executions += 3;
+                acc.impl_calls += 3;
+                acc.choice_points += 1;
+                let ok = matches!(first, Ok(Ok(_))) && matches!(second, Ok(Err(_))) && matches!(third, Ok(Ok(_)));
+                // "2999-13-41T99:99:99Z" starts with something date-shaped: the property leaves it unconstrained
+                let unconstrained = other.starts_with("2999-13");
+                if ok || (unconstrained && matches!(first, Ok(Ok(_))) && matches!(third, Ok(Ok(_))) && !matches!(second, Err(_))) {
+                    acc.controls_ok += 1;
+                    acc.bump("same-buffer:conforms");
+                } else {
+                    acc.violate(
+                        format!("C18|{}|same-buffer", CLAIM_NAMES[claim]),
+                        format!("{}::try_from on one buffer holding {:?}, then {:?} (same address and length), then {:?} again: {:?} / {:?} / {:?} - expected accepted, refused, accepted", CLAIM_NAMES[claim], valid, other, valid, first, second, third),
+                        json!({"kind": "same-buffer", "claim": claim, "valid": valid, "other": other}),
+                    );
+                }
+            }
+        }
+        all.merge(acc);
+    }
+
     // ---- time constructors: the strict rendering grid
     let dates: [(i64, i64, i64); 8] = [(1971, 1, 1), (2000, 2, 29), (2024, 2, 29), (2026, 6, 15), (2029, 12, 31), (9000, 6, 15), (1, 1, 1), (9999, 12, 31)];
     let times = ["00:00:00", "00:00:01", "12:34:56", "19:08:07", "23:59:59"];
